@@ -191,7 +191,7 @@ class ArgParseFamily:
                 pass
             src = os.path.join(ctx.work, 'r_decls.ndjson') if 'mc' not in r.get('tags', []) else os.path.join(ctx.work, 'mc', 'catalog_decls.ndjson')
             shutil.copy(src, os.path.join(d, 'decls.ndjson'))
-            cfg = 'SPECIFICATION Spec\nCONSTANT Defects = {"%s"}\nCHECK_DEADLOCK FALSE\nPOSTCONDITION Post\n' % kf['switch']
+            cfg = 'SPECIFICATION Spec\nCONSTANT Defects = {"%s"}\nINVARIANT JudgeRecord\nCHECK_DEADLOCK FALSE\nPOSTCONDITION Post\n' % kf['switch']
             rc, out = ctx.tlc(d, 'Trace_ArgParse', cfg, workers=1, timeout=600, heap='2g')
             m = re.search(r'<<\s*"VERIF-BAD",\s*"DRIFT",\s*\{([^}]*)\}\s*>>', out)
             if m is not None and m.group(1).strip() == '':
@@ -335,7 +335,7 @@ class SimpleFamily:
                 continue
             d = ctx.specdir('kf')
             open(os.path.join(d, 'trace.ndjson'), 'w').write(line + '\n')
-            cfg = 'SPECIFICATION Spec\nCONSTANT Defects = {"%s"}\nCHECK_DEADLOCK FALSE\nPOSTCONDITION Post\n' % kf['switch']
+            cfg = 'SPECIFICATION Spec\nCONSTANT Defects = {"%s"}\nINVARIANT JudgeRecord\nCHECK_DEADLOCK FALSE\nPOSTCONDITION Post\n' % kf['switch']
             rc, out = ctx.tlc(d, self.trace_module, cfg, workers=1, timeout=600, heap='2g')
             m = re.search(r'<<\s*"VERIF-BAD",\s*"%s",\s*\{([^}]*)\}\s*>>' % ctx.prop, out)
             if m is not None and m.group(1).strip() == '' and self.shape_ok(kf, r):
@@ -523,7 +523,7 @@ class SessionFamily:
             d = ctx.specdir('kf')
             open(os.path.join(d, 'trace.ndjson'), 'w').write(line + '\n')
             shutil.copy(declsfile, os.path.join(d, 'decls.ndjson'))
-            cfg = 'SPECIFICATION Spec\nCONSTANT Defects = {%s}\nCHECK_DEADLOCK FALSE\nPOSTCONDITION Post\n' % ', '.join('"%s"' % x for x in kf['switch'].split('+'))
+            cfg = 'SPECIFICATION Spec\nCONSTANT Defects = {%s}\nINVARIANT JudgeRecord\nCHECK_DEADLOCK FALSE\nPOSTCONDITION Post\n' % ', '.join('"%s"' % x for x in kf['switch'].split('+'))
             rc, out = ctx.tlc(d, 'Trace_Session', cfg, workers=1, timeout=600, heap='2g')
             m = re.search(r'<<\s*"VERIF-BAD",\s*"DRIFT",\s*\{([^}]*)\}\s*>>', out)
             if m is not None and m.group(1).strip() == '':
